@@ -19,4 +19,22 @@ theorem C11_full_tags_nested (v : PyVal) (bs : Bytes) (h : Encode.tableValue fal
   obtain ⟨fv, _, hw, hwf, ht⟩ := C04_value_refines_spec false v bs h hk
   exact ⟨fv, hw, hwf, by simpa [Spec.ladderTags] using ht⟩
 
+/-- integers next to each other do not influence one another: the body of an array of integers is the
+concatenation of what the ladder gives for each of them -/
+theorem C11_adjacent_independent (legacy : Bool) (ns : List Int) (bss : List Bytes)
+    (h : ns.map (Encode.tableInteger legacy) = bss.map Except.ok) :
+    Encode.items legacy (ns.map PyVal.int) = .ok bss.flatten := by
+  induction ns generalizing bss with
+  | nil =>
+    cases bss with
+    | nil => simp [Encode.items]
+    | cons b bs => simp at h
+  | cons n ns ih =>
+    cases bss with
+    | nil => simp at h
+    | cons b bs =>
+      simp only [List.map_cons, List.cons.injEq] at h
+      have := ih bs h.2
+      simp [Encode.items, Encode.tableValue, h.1, this, bind, Except.bind, pure, Except.pure]
+
 end Pamqp.Props
